@@ -22,6 +22,9 @@ def run(ck, ctx):
     ck.rule("R17.5", "no write after the error reply was chosen: a visible write site reachable from the construction of an error reply "
                      "(the clean-up step that follows the `match`) must be excluded on that path by the types: it is guarded by "
                      "`value is variant V` while the error was chosen under `value is not V`")
+    ck.rule("R17.6", "EXEC refuses before it replays: in execute_exec (executor) no error reply of EXEC itself is constructed at or "
+                     "after the point where the queued commands start being executed (a refusal decided in the middle of the replay "
+                     "answers an error while the commands before it have taken effect)")
     ck.assume("a variant classified read-only under *some* field condition is required to have a write-free handler "
               "(no correlation between pattern fields and handler branches)")
     for cfg in ctx.configs:
@@ -33,6 +36,7 @@ def run(ck, ctx):
         _r172(ck, prog, cfg, writers)
         _r174(ck, prog, cfg)
         _r175(ck, prog, cfg, writers)
+        _r176(ck, prog, cfg)
 
 
 def read_only_variants(prog):
@@ -268,3 +272,26 @@ def _r175(ck, prog, cfg, writers):
                          "to a value type the error path excludes: a command that answers with an error changes the keyspace"
                          % (txt[:48], ln, w["what"].rsplit("::", 1)[-1], w["ln"]), f.where(w["ln"]), detail="write guarded by the variant the error arm excludes")
     ck.floor("R17.5" + _tag(cfg), n, 6)
+
+
+def _r176(ck, prog, cfg):
+    fs = [m for m in effects.executor_methods(prog) if m.short == "execute_exec"]
+    if len(fs) != 1:
+        ck.anchor_lost("R17.6", "execute_exec not found exactly once")
+        return
+    f = fs[0]
+    replayers = {c.id for c in prog.children(f) if any(is_callee(t, r"CommandExecutor::execute$") for _, t in c.calls())}
+    starts = [b for b, t in f.calls() if is_callee(t, r"CommandExecutor::execute$")]
+    for b, i, st in f.stmts():
+        rv = st["rv"]
+        if rv["k"] == "agg" and rv.get("n") in replayers:
+            starts.append(b)
+    ck.check(bool(starts), "R17.6", "execute_exec:replay-found" + _tag(cfg), "the replay of the queued commands was not found in execute_exec", f.where())
+    if not starts:
+        return
+    region = set(starts) | f.reach(starts)
+    late = [(eb, eln, etxt) for eb, eln, etxt in effects.error_sites(f) if eb in region]
+    ck.check(not late, "R17.6", "execute_exec:no-refusal-after-replay-started" + _tag(cfg),
+             "EXEC can answer an error (%s, line %s) after queued commands have been executed: the transaction is reported as refused "
+             "while part of it has taken effect" % ((late[0][2], late[0][1]) if late else ("", "")), f.where(late[0][1] if late else None),
+             detail="%d error sites, all before the replay" % len(effects.error_sites(f)))
